@@ -2059,6 +2059,7 @@ impl Value {
         if n == 2 {
             // Fast case for 2D
             for o in 0..octaves.count() {
+                env.respect_execution_limit()?;
                 let oct_avg_sqrt_n = octaves.avg(o) * sqrt_n;
                 let (o0, o1) = (octaves.get(o, 0), octaves.get(o, 1));
                 for (noise, coord) in slice.iter_mut().zip(coords.chunks_exact(n)) {
@@ -2096,6 +2097,7 @@ impl Value {
 
             // Main loop
             for o in 0..octaves.count() {
+                env.respect_execution_limit()?;
                 let oct_avg_sqrt_n = octaves.avg(o) * sqrt_n;
                 for (noise, coord) in slice.iter_mut().zip(coords.chunks_exact(n)) {
                     // Scale coord to octave and fine top-left corner
